@@ -17,7 +17,7 @@ func c02Defaults(p *Prog, r *Report, rule string) {
 	// (a) registry answer for the main id
 	if fi := p.Func(kTxRepoGet); fi != nil && okRC {
 		info := fi.Pkg.TypesInfo
-		f := p.FlatOf(fi)
+		f := p.FlatInl(fi)
 		var idObj types.Object
 		for _, fld := range fi.Decl.Type.Params.List {
 			for _, nm := range fld.Names {
@@ -45,7 +45,7 @@ func c02Defaults(p *Prog, r *Report, rule string) {
 										lvl = tv.Value.ExactString()
 									}
 								}
-								if k.Name == "Id" && objOf(info, kv.Value) == idObj {
+								if k.Name == "Id" && f.CanonObj(objOf(info, kv.Value)) == idObj {
 									id = true
 								}
 							}
